@@ -767,6 +767,89 @@ fn transports(v: &Verdicts, sessions: usize, rng: &mut Rng) -> (u64, BTreeSet<St
 
 static TCP_RESETS: std::sync::atomic::AtomicU64 = std::sync::atomic::AtomicU64::new(0);
 
+/// A burst of sessions watched by a session that does not take its messages meanwhile (round 10): 30-400 sessions select
+/// the database and leave (or select, switch to the other database and leave) while the watcher of `$connections` lets
+/// 60-1600 notification lines pile up. When it finally reads, it has been told of EVERY change, in order (+1 for every
+/// selection, -1 for every departure), it is still subscribed (the next session is announced too), and the counter is
+/// back where it was. Returns (bursts, changes the watchers were told of, largest backlog in lines).
+fn watched_bursts(v: &Verdicts, thorough: bool, rng: &mut Rng) -> (u64, u64, u64) {
+    let (mut bursts, mut told, mut largest) = (0u64, 0u64, 0u64);
+    let sizes: Vec<usize> = if thorough { vec![30, 51, 52, 75, 120, 200, 400, 60, 101, 49, 50, 300] } else { vec![30, 51, 75, 120, 200] };
+    for (bi, n) in sizes.into_iter().enumerate() {
+        let (node, _adm) = setup();
+        let dbs = node.dbs.clone();
+        let mut w = Session::new();
+        w.call(&dbs, "use-db d0 tok");
+        w.call(&dbs, "watch $connections");
+        w.drain();
+        let base = counts(&dbs).get("d0").map(|c| c.0).unwrap_or(0);
+        let style = bi % 3;
+        let mut expected: Vec<String> = vec![];
+        let mut now = base;
+        let mut open: Vec<Session> = vec![];
+        for i in 0..n {
+            let mut s = Session::new();
+            s.call(&dbs, if rng.chance(1, 4) { "use-db d0 u utok" } else { "use-db d0 tok" });
+            now += 1;
+            expected.push(now.to_string());
+            match style {
+                // each session leaves before the next one comes
+                0 => {
+                    s.disconnect(&dbs);
+                    now -= 1;
+                    expected.push(now.to_string());
+                }
+                // each session moves on to the other database, then leaves
+                1 => {
+                    s.call(&dbs, "use-db d1 tok");
+                    now -= 1;
+                    expected.push(now.to_string());
+                    s.disconnect(&dbs);
+                }
+                // they all stay until everybody is there (every seventh re-selects the database meanwhile: no change)
+                _ => {
+                    if i % 7 == 3 {
+                        s.call(&dbs, "use-db d0 tok");
+                    }
+                    open.push(s);
+                }
+            }
+        }
+        for s in open.drain(..) {
+            s.disconnect(&dbs);
+            now -= 1;
+            expected.push(now.to_string());
+        }
+        let lines = w.drain();
+        largest = largest.max(lines.len() as u64);
+        let got = notes_of(&lines);
+        bursts += 1;
+        told += got.len() as u64;
+        let after = counts(&dbs).get("d0").map(|c| c.0).unwrap_or(0);
+        // is the watcher still subscribed? one more session comes and goes
+        let mut late = Session::new();
+        late.call(&dbs, "use-db d0 tok");
+        let heard_late = notes_of(&w.drain());
+        late.disconnect(&dbs);
+        w.drain();
+        let style_name = ["each-leaves-before-the-next", "each-moves-to-another-database-then-leaves", "all-stay-then-all-leave"][style];
+        if got != expected {
+            let first_diff = got.iter().zip(expected.iter()).position(|(a, b)| a != b).unwrap_or(got.len().min(expected.len()));
+            v.report(json!({"check": "connections", "mode": "burst-watched-by-a-session-that-reads-later", "problem": "watcher-did-not-see-each-change"}),
+                json!({"sessions_in_the_burst": n, "burst": style_name, "changes": expected.len(), "changes_the_watcher_was_told_of": got.len(), "first_difference_at_change": first_diff,
+                       "expected_around": expected.iter().skip(first_diff.saturating_sub(2)).take(6).collect::<Vec<_>>(), "got_around": got.iter().skip(first_diff.saturating_sub(2)).take(6).collect::<Vec<_>>(), "lines_waiting_when_it_read": lines.len()}));
+        } else if heard_late != vec![(base + 1).to_string()] {
+            v.report(json!({"check": "connections", "mode": "burst-watched-by-a-session-that-reads-later", "problem": "watcher-no-longer-subscribed-after-the-burst"}),
+                json!({"sessions_in_the_burst": n, "burst": style_name, "told_of_the_next_session": heard_late, "expected": (base + 1).to_string()}));
+        }
+        if after != base {
+            v.report(json!({"check": "connections", "mode": "burst-watched-by-a-session-that-reads-later", "problem": "count-not-back-after-the-burst"}), json!({"sessions_in_the_burst": n, "burst": style_name, "before": base, "after": after}));
+        }
+        w.disconnect(&dbs);
+    }
+    (bursts, told, largest)
+}
+
 pub fn run(tier: &str) -> i32 {
     quiet_panics();
     let thorough = tier == "thorough";
@@ -843,6 +926,7 @@ pub fn run(tier: &str) -> i32 {
     sched::clear_callback();
     take_panics();
     let restart_cases = restart_part(&v);
+    let wb = watched_bursts(&v, thorough, &mut rng);
     let (cl_runs, cl_inconclusive, cl_checks, cl_full_early) = cluster_part(&v, if thorough { 1000 } else { 100 }, seed());
     let (tr_sessions, tr_shapes) = transports(&v, if thorough { 6_000 } else { 300 }, &mut rng);
     // a TCP session whose client stops reading (it watches a key that is written a lot): however the node ends that
@@ -869,6 +953,7 @@ pub fn run(tier: &str) -> i32 {
     ev.distinct_nontrivial = (s.shapes.len() + il_nontrivial.len() + tr_shapes.len()) as u64;
     ev.rule = format!("sequential: {} systematic + {} random sequences of connect / use-db (db token, wrong token, user token, unknown db; same db again, other db) / other commands / disconnect over 3 sessions x 2 databases, model checked after every event against Database.connections, the $connections key and a watcher's notifications; interleaved: {} token-passing schedules of two sessions (use-db, use-db, disconnect|stay) ; transports: {} sessions in bursts of 1-3 over real TCP (orderly close, and connection reset with replies left unread), WebSocket (close frame and abrupt close) and HTTP (end of request), counts checked while connected and after the burst; cluster: {} simulated 2-node runs in which sessions select a database on both nodes, the secondary leaves (kill / clean stop, disk kept / wiped) and re-joins through a synchronisation, counts judged per node ({} node counts); distinct_nontrivial = distinct event-shape sequences (sequential) + distinct schedules in which both sessions touch one database + distinct transport burst shapes", systematic, n_random, il_runs, tr_sessions, cl_runs, cl_checks);
     ev.samples = s.samples.clone();
+    ev.set("bursts_watched_by_a_session_that_reads_later", json!({"bursts": wb.0, "changes_the_watchers_were_told_of": wb.1, "largest_backlog_lines": wb.2}));
     ev.set("sequential_events", json!(s.events));
     ev.set("sequential_shapes", json!(s.shapes.len()));
     ev.set("watcher_notifications_checked", json!(s.notifications_checked));
